@@ -21,7 +21,7 @@ pub static DEF: CheckDef = CheckDef {
     run,
     quick_runs: 100_000,
     thorough_runs: 6_000_000,
-    rule: "case = generated query or mutation (valid; or rejected at parse / validation in the 'rejected' variants), optional fault plan of the schedule-independent class (none, one fault, or faults on nullable fields), executed once without extensions and once with a stack of 1-3 recording pass-through extensions whose hooks may suspend on simulator gates before and after delegating, each under its own drawn schedule. Oracle: (a) identical response (data in key order, error multiset, extensions, cache control); (b) hook trace: request encloses everything; prepare_request < parse_query < validation < execute, each exactly once up to the stage that rejected the request; per hook kind entries in registration order and exits reversed; resolve entered at most once per position per extension, nested, and (fault-free) exactly once for every resolved field and list element. Non-trivial = an extension hook actually suspended or a fault fired; distinct = distinct event-order hashes.",
+    rule: "case = generated query or mutation (valid; or rejected at parse / validation in the 'rejected' variants), optional fault plan of the schedule-independent class (none, one fault, or faults on nullable fields), executed once without extensions and once with a stack of 1-3 recording pass-through extensions whose hooks may suspend on simulator gates before and after delegating, each under its own drawn schedule; one case in four runs both in lockstep instead (same resolver latencies, FIFO, hooks never suspend) with an unrestricted fault plan, so that failures racing inside one non-null region must come out the same too. Oracle: (a) identical response (data in key order, error multiset, extensions, cache control); (b) hook trace: request encloses everything; prepare_request < parse_query < validation < execute, each exactly once up to the stage that rejected the request; per hook kind entries in registration order and exits reversed; resolve entered at most once per position per extension, nested, and (fault-free) exactly once for every resolved field and list element. Non-trivial = an extension hook actually suspended or a fault fired; distinct = distinct event-order hashes.",
     real: &["async-graphql extension chain (Next* runners), extension branches of field and list resolution (static and dynamic), prepare_request pipeline"],
     stub: &["async runtime (simulator)", "recording extensions (harness)", "resolvers (harness, gated)"],
     assumptions: &["queries checked for resolve-hook counts contain no __typename (the library answers it without a resolver)"],
@@ -160,6 +160,7 @@ fn run(variant: usize) -> CaseOut {
         }
     }
     // plan from a fault-free baseline (only for valid requests)
+    let mut lockstep = false;
     set_latency(0, 0);
     if rejected_at.is_none() {
         let base = run_request_with("baseline", flavour, 0, &query, operation_name, variables.clone(), Some(Params::default()));
@@ -173,7 +174,12 @@ fn run(variant: usize) -> CaseOut {
             return out;
         }
         let basel = ExecLike { data: data_of(&base_resp), log: base.log };
+        // lockstep cases: both runs get the same resolver latencies, the plain FIFO schedule and hooks
+        // that never suspend, so every resolver completes at the same simulated instant in both; then
+        // even failures that race inside one non-null region must come out the same
+        lockstep = chance(1, 4);
         let plan = match draw(3) {
+            _ if lockstep => Some(draw_plan(flavour, &basel, 3, false)),
             0 => None,
             1 => Some(draw_plan(flavour, &basel, 1, false)),
             _ => Some(draw_plan(flavour, &basel, 3, true)),
@@ -187,13 +193,19 @@ fn run(variant: usize) -> CaseOut {
     // one case in four hands the schema a request whose document is already parsed
     PRE_PARSE.with(|c| c.set(chance(1, 4)));
     // run without extensions
-    set_latency(draw(1 << 16) as u64, [1u32, 0, 2, 3][draw(4) as usize]);
-    let p0 = sim::draw_params();
+    let (lat_seed, lat_profile) = (draw(1 << 16) as u64, [1u32, 0, 2, 3][draw(4) as usize]);
+    set_latency(lat_seed, lat_profile);
+    let p0 = if lockstep { Params { fifo_ties: true, ..Params::default() } } else { sim::draw_params() };
     let plain = run_request_with("no-extensions", flavour, 0, &query, operation_name, variables.clone(), Some(p0));
     // run with extensions, hooks suspending
-    world(|w| w.ext_gates = draw(4) != 0);
-    set_latency(draw(1 << 16) as u64, [1u32, 0, 2, 3][draw(4) as usize]);
-    let p1 = sim::draw_params();
+    world(|w| w.ext_gates = !lockstep && draw(4) != 0);
+    if lockstep {
+        sim::count("probe:lockstep-differential");
+        set_latency(lat_seed, lat_profile);
+    } else {
+        set_latency(draw(1 << 16) as u64, [1u32, 0, 2, 3][draw(4) as usize]);
+    }
+    let p1 = if lockstep { Params { fifo_ties: true, ..Params::default() } } else { sim::draw_params() };
     let ext = run_request_with("with-extensions", flavour, n_ext, &query, operation_name, variables.clone(), Some(p1));
     PRE_PARSE.with(|c| c.set(false));
     let (Some(r0), Some(r1)) = (plain.resp.clone(), ext.resp.clone()) else {
